@@ -115,13 +115,14 @@ def rand_value(rng):
 
 class Case:
     def __init__(self, ftls, entry, args=None, iso=True, transform=b'none', formatter=b'none', funcs=None,
-                 locales=(b'en',), flavour=b'single', expect=()):
+                 locales=(b'en',), flavour=b'single', expect=(), forbid=()):
         self.ftls = [f if isinstance(f, bytes) else f.encode() for f in ftls]
         self.entry = entry
         self.args = args
         self.cfg = [b'cfg', b'true' if iso else b'false', transform, formatter, list(ALL_FUNCS if funcs is None else funcs),
                     list(locales), flavour]
         self.expect = list(expect)
+        self.forbid = list(forbid)
 
 
 def msg(id_, attr=None):
@@ -168,6 +169,8 @@ def render(cases):
         x = [b'fmt', c.cfg, [[b'r', t, tr[t]] for t in c.ftls], c.entry, mkargs(c.args)]
         if c.expect:
             x.append([b'expect'] + [e.encode() if isinstance(e, str) else e for e in c.expect])
+        if c.forbid:
+            x.append([b'forbid'] + [e.encode() if isinstance(e, str) else e for e in c.forbid])
         lines.append(sexp.dumps(x))
     return lines
 
@@ -210,7 +213,7 @@ def gen_limit_positions(rng, tier):
             ftl = HELPERS + 'entry = ' + '{ "a" }' * k + probe + '{ $z }tail\n'
             for iso in ((True, False) if (k + pi) % 2 == 0 or tier != 'quick' else (True,)):
                 cases.append(Case([ftl], msg('entry'), [('n', mnum(1.0)), ('x', v_str(b'X')), ('z', v_str(b'Z'))], iso=iso,
-                                  expect=['TooManyPlaceables'] if k >= MAXP else []))
+                                  expect=['TooManyPlaceables'] if k >= MAXP else [], forbid=['Cyclic']))
     # the same inside a term attribute / message attribute / variant pattern as the entry point
     for k in (97, 98, 99, 100, 101):
         ftl = HELPERS + 'holder = h\n    .attr = ' + '{ "a" }' * k + '{ { m7 } }\n-tt = x\n    .attr = ' + '{ "a" }' * k + '{ 1 ->\n    [one] {m7}\n   *[other] y\n }\n'
@@ -224,7 +227,7 @@ def gen_graphs(rng, tier):
     # chains
     for n in (1, 2, 10, 50, 99, 100, 101, 102, 150) + ((300, 1000) if tier != 'quick' else ()):
         ftl = ''.join('m%d = { m%d }\n' % (i, i + 1) for i in range(n)) + 'm%d = end\n' % n
-        cases.append(Case([ftl], msg('m0'), None, expect=['TooManyPlaceables'] if n > MAXP else []))
+        cases.append(Case([ftl], msg('m0'), None, expect=['TooManyPlaceables'] if n > MAXP else [], forbid=['Cyclic']))
         ftl2 = ''.join('-t%d = x{ -t%d }\n' % (i, i + 1) for i in range(n)) + '-t%d = end\nm = { -t0 }\n' % n
         cases.append(Case([ftl2], msg('m'), None, iso=(n % 2 == 0), expect=['TooManyPlaceables'] if n + 1 > MAXP else []))
     # fan-out ("billion laughs") of several arities
@@ -233,7 +236,7 @@ def gen_graphs(rng, tier):
             total = sum(arity ** i for i in range(1, depth + 1))
             ftl = 'lol0 = lol\n' + ''.join('lol%d = %s\n' % (d, ('{ lol%d }' % (d - 1)) * arity) for d in range(1, depth + 1))
             cases.append(Case([ftl], msg('lol%d' % depth), None, iso=(arity + depth) % 2 == 0,
-                              expect=['TooManyPlaceables'] if total > MAXP else []))
+                              expect=['TooManyPlaceables'] if total > MAXP else [], forbid=['Cyclic'] + ([] if total > MAXP else ['TooManyPlaceables'])))
             if depth <= 4:
                 ftl_t = '-lol0 = lol\n' + ''.join('-lol%d = %s\n' % (d, ('{ -lol%d }' % (d - 1)) * arity) for d in range(1, depth + 1)) + \
                         'm = a{ CONCAT(%s) }\n' % ', '.join(['-lol%d' % depth] * 3)
@@ -346,6 +349,12 @@ def gen_selects(rng, tier):
                 j += 1
                 cases.append(Case([ftl], msg('e'), [('n', v)], locales=[locs[j % len(locs)]], iso=j % 2 == 0,
                                   flavour=b'concurrent' if j % 7 == 0 else b'single'))
+    # cardinal and ordinal rules needed by different messages of one bundle (memoizer keyed by rule type)
+    two = 'o = { NUMBER($n, type: "ordinal") ->\n    [one] st\n    [two] nd\n    [few] rd\n   *[other] th\n }\n' \
+          'c = { $n ->\n    [one] one\n    [two] two\n    [few] few\n    [many] many\n   *[other] other\n }\n'
+    for i in (0, 1, 2, 3, 4, 5, 11, 12, 21, 22, 23, 101):
+        for e in ('o', 'c'):
+            cases.append(Case([two], msg(e), [('n', mnum(float(i)))], locales=[b'en' if i % 2 else b'pl']))
     # literal selectors and function results
     for sel in ('1', '1.0', '1.00', '0', '2', '5', '11', '-1', '1.5', '1.00000000000000000000', '0.000000000000000000000', '2.0000000000000000000000',
                 '"one"', '"John"', 'NUM()', 'NUM(1)', 'NUM(1, 2)', 'CUSTOM("a")', 'FAIL()', 'NONE()', 'CONCAT("o", "ne")', 'NUMBER(1, minimumFractionDigits: 20)',
@@ -577,7 +586,10 @@ def case_info(case):
     c = sexp.loads(case)
     cfg = c[1]
     info = {'iso': cfg[1] == b'true', 'transform': cfg[2], 'formatter': cfg[3], 'funcs': cfg[4], 'locales': cfg[5], 'flavour': cfg[6],
-            'res': c[2], 'entry': c[3], 'args': c[4], 'expect': [x.decode() for x in c[5][1:]] if len(c) > 5 else []}
+            'res': c[2], 'entry': c[3], 'args': c[4], 'expect': [], 'forbid': []}
+    for extra in c[5:]:
+        if extra and extra[0] in (b'expect', b'forbid'):
+            info[extra[0].decode()] = [x.decode() for x in extra[1:]]
     return info
 
 
